@@ -16,6 +16,10 @@ import sys
 import xml.etree.ElementTree as ET
 
 VERIF = os.path.dirname(os.path.dirname(os.path.abspath(__file__)))
+# several evaluations may run at the same time: each with its own tag (scratch paths) and its own copy of the
+# framework to run the check in (a git worktree of /verif with `main` merged; default: /verif itself)
+TAG = os.environ.get("SEED_EVAL_TAG", "")
+COPY = os.environ.get("SEED_EVAL_COPY", VERIF)
 
 
 def sh(cmd, cwd=None, env=None, timeout=3000):
@@ -24,7 +28,7 @@ def sh(cmd, cwd=None, env=None, timeout=3000):
 
 
 def passing(repo):
-    out = "/tmp/seedchk_junit.xml"
+    out = "/tmp/seedchk_junit%s.xml" % TAG
     sh("/venv/bin/python -m pytest -q -p no:cacheprovider --timeout=900 --continue-on-collection-errors --junitxml=%s" % out, cwd=repo)
     ok = set()
     for tc in ET.parse(out).iter("testcase"):
@@ -42,7 +46,10 @@ def main():
     demo = os.path.abspath(os.path.join(src, "demo.py"))
     head = sh("git -C /repo log -1 --format=%h")[1].strip()
     assert sh("git -C /repo status --porcelain --untracked-files=no")[1].strip() == "", "/repo is dirty"
-    scratch = "/tmp/seedchk_repo"
+    if COPY != VERIF:
+        assert sh("git -C %s merge-base --is-ancestor %s HEAD" % (COPY, sh("git -C %s rev-parse HEAD" % VERIF)[1].strip()))[0] == 0, \
+            "the framework copy %s does not contain /verif's HEAD (merge main there first)" % COPY
+    scratch = "/tmp/seedchk_repo%s" % TAG
     sh("git -C /repo worktree remove --force %s" % scratch)
     rc, out = sh("git -C /repo worktree add %s HEAD" % scratch)
     assert rc == 0, out
@@ -105,14 +112,14 @@ def main():
             meta = {}
     # run the check against the change
     in_repo = "--in-repo" in sys.argv
-    ev = os.path.join(VERIF, "evidence", "%s.json" % prop)
+    ev = os.path.join(COPY, "evidence", "%s.json" % prop)
     ev_saved = open(ev).read() if os.path.exists(ev) else None
     if in_repo:
         target, env2 = "/repo", dict(os.environ, VERIF_SEED=seed)
     else:
         # while other workers run checks against /repo, a seeded change is applied to a scratch worktree
         # and the check is pointed at it with RIG_REPO (same code path as /repo)
-        target = "/tmp/seedrun_repo"
+        target = "/tmp/seedrun_repo%s" % TAG
         sh("git -C /repo worktree remove --force %s" % target)
         rc, out = sh("git -C /repo worktree add %s HEAD" % target)
         assert rc == 0, out
@@ -120,7 +127,7 @@ def main():
     rc, out = sh("git apply %s" % os.path.join(dst, "patch.diff"), cwd=target)
     assert rc == 0, out
     try:
-        crc, cout = sh("./check %s --tier %s" % (prop, tier), cwd=VERIF, env=env2)
+        crc, cout = sh("./check %s --tier %s" % (prop, tier), cwd=COPY, env=env2)
     finally:
         if in_repo:
             sh("git checkout -- .", cwd="/repo")
@@ -130,13 +137,13 @@ def main():
         if ev_saved is not None:
             open(ev, "w").write(ev_saved)
         # generated model sources were regenerated from the seeded tree: put the committed ones back
-        sh("git checkout -- lean/RigModel/Gen", cwd=VERIF)
+        sh("git checkout -- lean/RigModel/Gen", cwd=COPY)
     lines = [l for l in cout.splitlines() if l.startswith("VIOLATION") or l.startswith("KNOWN-FINDING") or l.startswith("INFRA")]
     replays = []
     for l in lines:
         if "replay=" in l:
             rp = l.split("replay=")[1].split()[0]
-            src_rp = os.path.join(VERIF, rp)
+            src_rp = os.path.join(COPY, rp)
             if os.path.exists(src_rp):
                 shutil.copy(src_rp, os.path.join(dst, os.path.basename(rp)))
                 replays.append(os.path.basename(rp))
